@@ -240,8 +240,9 @@ OBLIGATIONS = [
     dict(id='C19.1', impl='protocol', params=_P, cases=[(1, 0), (1, 1)], cases_thorough=[(1, 0), (1, 1), (1, 2), (2, 0), (2, 1)],
          pre=_PRE,
          splits=[['get_fault == -1', 'fs_fault == -1', 's2 == -1', 't2 == 0', r] for r in _S1] +
-                [['get_fault >= 0', 'fs_fault == -1', 's1 == -1', 't1 == 0', 's2 == -1', 't2 == 0'],
-                 ['get_fault == -1', 'fs_fault >= 0', 's1 == -1', 't1 == 0', 's2 == -1', 't2 == 0']],
+                [['get_fault >= 0', 'fs_fault == -1', 's2 == -1', 't2 == 0', r] for r in
+                 ('s1 == -1 and t1 == 0', '0 <= s1 <= 11', '12 <= s1 <= 23', '24 <= s1')] +
+                [['get_fault == -1', 'fs_fault >= 0', 's1 == -1', 't1 == 0', 's2 == -1', 't2 == 0']],
          splits_thorough=[['get_fault == -1', 'fs_fault == -1', r, r2] for r in _S1 for r2 in
                           ('0 <= s2 <= 10', '10 < s2 <= 20', '20 < s2 <= 30', '30 < s2')] +
                          [['get_fault >= 0', 'fs_fault == -1', 's2 == -1', 't2 == 0', r] for r in _S1] +
